@@ -5,7 +5,8 @@ Written from the documented token list and precedence table, not from formulae's
     =  <  ~  <  |  <  comparisons  <  + -  <  * /  <  :  <  **  <  unary + -  <  call / subscript / atom
 
 All binary operators are left-associative.  The recogniser is deliberately *generous*: every operator
-may appear at every nesting depth, any primary may be called, a trailing comma is allowed.  The
+may appear at every nesting depth and any primary may be called.  (A comma is a separator: after it another argument
+must follow - a trailing comma would be a token without any effect.)  The
 implementation is free to reject any sentence; what it may not do is accept a string that is not even a
 sentence of this generous grammar (left-over tokens, unbalanced brackets, two operands in a row ...).
 The set of sentences does not depend on the precedence table; only the trees do.
@@ -162,8 +163,6 @@ class P:
                     args.append(self.expr(0))
                     if self.kind() == ",":
                         self.i += 1
-                        if self.kind() == ")":
-                            break
                         continue
                     break
             if self.kind() != ")":
